@@ -341,3 +341,4 @@ def run(ctx):
   ctx.check(all(f.qual == 'config.config_scope' for f in pushers), 'C16.untouched', 'gin/config.py::parse_config',
             'scopes are only entered through the config_scope context manager (restored on every exit, C09)',
             'scope pushed outside config_scope by %s' % [f.qual for f in pushers], 'gin/config.py', instance='scope')
+  ctx.borrow('C03', 'C03.queue', 'C16.stream')     # block members reach the consumer in source order
